@@ -1,0 +1,116 @@
+//! Verification hooks (feature `verif-hooks`): public wrappers around crate-private routines,
+//! so an external checker can call them directly. No behaviour of the library changes.
+use crate::array::*;
+use crate::finite_function::FiniteFunction;
+use crate::indexed_coproduct::IndexedCoproduct;
+use crate::operations::Operations;
+use crate::semifinite::SemifiniteFunction;
+use crate::strict::hypergraph::Hypergraph;
+use crate::strict::open_hypergraph::OpenHypergraph;
+use crate::strict::{functor, graph};
+
+type IC<K> = IndexedCoproduct<K, FiniteFunction<K>>;
+
+pub fn converse<K: ArrayKind>(r: &IC<K>) -> IC<K>
+where
+    K::Type<K::I>: NaturalArray<K>,
+{
+    graph::converse(r)
+}
+
+pub fn operation_adjacency<K: ArrayKind, O, A>(h: &Hypergraph<K, O, A>) -> IC<K>
+where
+    K::Type<K::I>: NaturalArray<K>,
+{
+    graph::operation_adjacency(h)
+}
+
+pub fn node_adjacency<K: ArrayKind, O, A>(h: &Hypergraph<K, O, A>) -> IC<K>
+where
+    K::Type<K::I>: NaturalArray<K>,
+{
+    graph::node_adjacency(h)
+}
+
+pub fn node_adjacency_from_incidence<K: ArrayKind>(s: &IC<K>, t: &IC<K>) -> IC<K>
+where
+    K::Type<K::I>: NaturalArray<K>,
+{
+    graph::node_adjacency_from_incidence(s, t)
+}
+
+pub fn kahn<K: ArrayKind>(adjacency: &IC<K>) -> (K::Index, K::Type<K::I>)
+where
+    K::Type<K::I>: NaturalArray<K>,
+{
+    graph::kahn(adjacency)
+}
+
+pub fn indegree<K: ArrayKind>(adjacency: &IC<K>) -> FiniteFunction<K>
+where
+    K::Type<K::I>: NaturalArray<K>,
+{
+    graph::indegree(adjacency)
+}
+
+pub fn dense_relative_indegree<K: ArrayKind>(
+    adjacency: &IC<K>,
+    f: &FiniteFunction<K>,
+) -> FiniteFunction<K>
+where
+    K::Type<K::I>: NaturalArray<K>,
+{
+    graph::dense_relative_indegree(adjacency, f)
+}
+
+pub fn sparse_relative_indegree<K: ArrayKind>(
+    a: &IC<K>,
+    f: &FiniteFunction<K>,
+) -> (FiniteFunction<K>, FiniteFunction<K>)
+where
+    K::Type<K::I>: NaturalArray<K>,
+{
+    graph::sparse_relative_indegree(a, f)
+}
+
+pub fn filter<K: ArrayKind>(values: &K::Index, predicate: &K::Index) -> K::Index {
+    graph::filter::<K>(values, predicate)
+}
+
+pub fn to_operations<K: ArrayKind, O, A>(f: &OpenHypergraph<K, O, A>) -> Operations<K, O, A>
+where
+    K::Type<K::I>: NaturalArray<K>,
+    K::Type<O>: Array<K, O>,
+    K::Type<A>: Array<K, A>,
+{
+    functor::to_operations(f)
+}
+
+pub fn map_half_spider<K: ArrayKind, O>(
+    w: &IndexedCoproduct<K, SemifiniteFunction<K, O>>,
+    f: &FiniteFunction<K>,
+) -> FiniteFunction<K> {
+    functor::map_half_spider(w, f)
+}
+
+pub fn spider_map_arrow<K: ArrayKind, O1, A1, O2, A2>(
+    f: &OpenHypergraph<K, O1, A1>,
+    fw: IndexedCoproduct<K, SemifiniteFunction<K, O2>>,
+    fx: OpenHypergraph<K, O2, A2>,
+) -> OpenHypergraph<K, O2, A2>
+where
+    K::Type<K::I>: NaturalArray<K>,
+    K::Type<O1>: Array<K, O1> + PartialEq,
+    K::Type<A1>: Array<K, A1>,
+    K::Type<O2>: Array<K, O2> + PartialEq,
+    K::Type<A2>: Array<K, A2>,
+{
+    functor::spider_map_arrow::<K, O1, A1, O2, A2>(f, fw, fx)
+}
+
+pub fn lax_hypergraph_coproduct<O: Clone, A: Clone>(
+    a: &crate::lax::Hypergraph<O, A>,
+    b: &crate::lax::Hypergraph<O, A>,
+) -> crate::lax::Hypergraph<O, A> {
+    a.coproduct(b)
+}
